@@ -452,7 +452,8 @@ pub trait Fl: 'static + Sized {
     fn g_from_cbor(b: &[u8]) -> Result<Self::Graph, String>;
     /// Serialise and read back through another wire format / entry point of
     /// the two serde implementations: "cbor-packed", "cbor-selfdesc",
-    /// "cbor-reader", "json-value", "json-pretty-reader", "json-bytes".
+    /// "cbor-reader", "json-value", "json-pretty-reader", "json-bytes", and "flat" (the
+    /// harness's own non-self-describing format, flatfmt.rs).
     /// Returns the new graph and a printable form of the document.
     fn g_roundtrip_fmt(g: &Self::Graph, fmt: &str) -> Result<(Self::Graph, String), String>;
     /// Drop the container on another thread where the flavour allows it
@@ -641,6 +642,11 @@ macro_rules! common_items {
                 "json-bytes" => {
                     let b = serde_json::to_vec(g).map_err(|e| es(&e))?;
                     Ok((serde_json::from_slice(&b).map_err(|e| es(&e))?, String::from_utf8_lossy(&b).to_string()))
+                }
+                "flat" => {
+                    let t = crate::flatfmt::to_tokens(g).map_err(|e| es(&e))?;
+                    let txt = format!("{:?}", t);
+                    Ok((crate::flatfmt::from_tokens(&t).map_err(|e| format!("{} [tokens: {}]", e, txt))?, txt))
                 }
                 other => Err(format!("harness: unknown format {}", other)),
             }
